@@ -42,6 +42,13 @@ func menu() []query {
 			}},
 		)
 	}
+	// k far beyond the number of stored pointers (implementations size or clamp their scratch space by k)
+	m = append(m,
+		query{"KNearest(nil,[1.5 1.5],300)", func(q *quadtree.Quadtree, y func()) []orb.Pointer { return q.KNearest(nil, qpoints[0], 300) }},
+		query{"KNearestMatching(nil,[4.5 2],5000,even)", func(q *quadtree.Quadtree, y func()) []orb.Pointer {
+			return q.KNearestMatching(nil, qpoints[1], 5000, even(y))
+		}},
+	)
 	for _, b := range []orb.Bound{
 		{Min: orb.Point{0, 0}, Max: orb.Point{4, 4}},
 		{Min: orb.Point{1, 1}, Max: orb.Point{2, 2}},
